@@ -98,15 +98,19 @@ def project_velocities(scene):
     drawn velocities with the Jacobian of a throw-away build)."""
     from cardillo.solver import SolverOptions
 
-    if not scene.get("joints"):
+    if not scene.get("joints") and not scene.get("nonholonomic"):
         return scene
-    B = build(scene, options=SolverOptions(compute_consistent_initial_conditions=False))
-    s = B.system
-    if s.nu == 0:
-        return scene
-    t0, q0, u0 = s.t0, s.q0, s.u0
-    J = np.vstack([s.W_g(t0, q0).toarray().T, s.gamma_u(t0, q0).toarray()])
-    chi = np.concatenate([s.g_dot(t0, q0, np.zeros(s.nu)), s.gamma(t0, q0, np.zeros(s.nu))])
+    import warnings
+
+    with warnings.catch_warnings():
+        warnings.simplefilter("ignore")  # this throw-away build is the harness's own; its chatter is not an observable
+        B = build(scene, options=SolverOptions(compute_consistent_initial_conditions=False))
+        s = B.system
+        if s.nu == 0:
+            return scene
+        t0, q0, u0 = s.t0, s.q0, s.u0
+        J = np.vstack([s.W_g(t0, q0).toarray().T, s.gamma_u(t0, q0).toarray()])
+        chi = np.concatenate([s.g_dot(t0, q0, np.zeros(s.nu)), s.gamma(t0, q0, np.zeros(s.nu))])
     if J.shape[0] == 0:
         return scene
     du = np.linalg.lstsq(J, J @ u0 + chi, rcond=1e-10)[0]
